@@ -295,7 +295,7 @@ PIN = {'PGPSignature.hashdata': '2981eddc50082cba',
        'SubPackets.__setitem__': 'cb36ba630cfe8fd5',
        'SubPackets.__copy__': 'c4e3c8b8af06fa0c',
        'SignatureV4.parse': '512042916c6de1d9',
-       'SignatureV4.__bytearray__': '45cbee56b0fa9bee',
+       'SignatureV4.__bytearray__': '8c43135a6b43f860',
        'RSAPub.verify': '8d2365a5e2675812',
        'DSAPub.verify': '193d676b2bbc578b',
        'ECDSAPub.verify': 'd6924db65cca3f88',
